@@ -8,6 +8,7 @@
 -/
 import Sq.Machine
 import SqLemmas.CopyLemmas
+import SqLemmas.SliceLemmas
 namespace SqProps.C03
 open Sq
 
@@ -161,5 +162,30 @@ theorem push_insert_keep_cap (args : List Val) (s : BState) (v : Val) (s' : BSta
     refine key a xs _ hg ?_ hlt hs
     simp only [List.length_append, List.length_cons, List.length_take, List.length_drop]
     omega
+
+/-- **a slice is no way around the cap**: whatever the bounds and the step (positive, negative, huge, absent), the positions
+    `slice.indices` selects are at most as many as the sequence has, so the list a slice read builds is never longer than the
+    list it was read from -/
+theorem slice_selects_at_most_length (xs : List Val) (a b c : Option Int) (idx : List Nat)
+    (h : sliceIndices xs.length a b c = .ok idx) : idx.length ≤ xs.length ∧ (pick xs idx).length ≤ xs.length :=
+  ⟨sliceIndices_length_le _ _ _ _ _ h, pick_slice_length_le xs a b c idx h⟩
+
+/-- through the subscript operator: a successful slice read of a list object returns a new list object of at most the
+    source's length -/
+theorem slice_read_no_longer_than_source (s : BState) (a : Nat) (xs : List Val) (lo hi st : Option Int) (r : Val × BState)
+    (hg : s.heap.get? a = some (.list xs)) (hr : pyGetItem s (.ref a) (.slice lo hi st) = .ok r) :
+    ∃ ys, r = allocList s ys ∧ ys.length ≤ xs.length := by
+  unfold pyGetItem at hr
+  simp only [hg] at hr
+  cases hsl : sliceIndices xs.length lo hi st with
+  | error e => rw [hsl] at hr; cases hr
+  | ok idx =>
+    rw [hsl] at hr
+    injection hr with hr
+    exact ⟨pick xs idx, hr.symm, pick_slice_length_le xs lo hi st idx hsl⟩
+
+/-- non-vacuity: `[1, 2, 3][::-2]` selects two positions, `[1, 2, 3][-100:100]` three -/
+example : (sliceIndices 3 none none (some (-2))).toOption.map List.length = some 2 ∧
+    (sliceIndices 3 (some (-100)) (some 100) none).toOption.map List.length = some 3 := by decide +kernel
 
 end SqProps.C03
